@@ -1255,6 +1255,26 @@ def markup_urls(text: str) -> tuple:
     return ([u for k, u in pc.urls if k == "link"], [u for k, u in pc.urls if k == "script"])
 
 
+def shape_for_some_prefix(r: Realised, i: int, got) -> bool:
+    """got = (stylesheet URLs, script URLs) of dependency i is the statement's shape for SOME lib
+    prefix and include_version (calls without arguments: the defaults are not the statement's business)"""
+    d = r.sc["deps"][i]
+    paths = (list(d["styles"]), list(d["scripts"]))
+    if [len(x) for x in got] != [len(x) for x in paths]:
+        return False
+    if d["kind"] == "url":
+        return tuple(got) == dep_urls_spec(r, i, None, True)
+    for iv in (True, False):
+        tails = [[r.namever(i, iv) + "/" + urllib.parse.quote(p) for p in ps] for ps in paths]
+        flat_g, flat_t = list(got[0]) + list(got[1]), tails[0] + tails[1]
+        if not flat_g:
+            return True
+        pre = flat_g[0][:len(flat_g[0]) - len(flat_t[0])] if flat_g[0].endswith(flat_t[0]) else None
+        if pre is not None and (pre == "" or pre.endswith("/")) and all(g == pre + t for g, t in zip(flat_g, flat_t)):
+            return True
+    return False
+
+
 def probe_targets(r: Realised) -> list[int]:
     loc = [i for i in dict.fromkeys(r.order) if r.sc["deps"][i]["kind"] != "none"]
     return loc[:2] + loc[2:][-1:]
@@ -1286,11 +1306,10 @@ def pre_probe(r: Realised, viol) -> None:
             o = call(lambda: dep.as_html_tags(lib_prefix=lp, include_version=iv).get_html_string())
             got = o if o[0] != "ok" else markup_urls(o[1])
             what = "as_html_tags(lib_prefix=%r, include_version=%r)" % (lp, iv)
-        elif which == 2:
-            lp, iv = "lib", True        # the documented defaults
-            want = dep_urls_spec(r, i, lp, iv)
+        elif which == 2:                # no arguments: the statement fixes the shape, not the defaults
             o = call(lambda: str(dep))
             got = o if o[0] != "ok" else markup_urls(o[1])
+            want = got if o[0] == "ok" and shape_for_some_prefix(r, i, got) else dep_urls_spec(r, i, "lib", True)
             what = "str(dependency)"
         else:
             o = call(lambda: (_copy.deepcopy(dep) if r.probe_k % 8 == 3 else _copy.copy(dep)).as_dict(
@@ -1312,6 +1331,8 @@ def post_probe(r: Realised, viol) -> None:
             o = call(lambda: dep.as_dict(**kw))
             got = o if o[0] != "ok" else ([x["href"] for x in o[1]["stylesheet"]], [x["src"] for x in o[1]["script"]])
             want = dep_urls_spec(r, i, lp, iv)
+            if not kw and o[0] == "ok" and shape_for_some_prefix(r, i, got):
+                continue                # defaults: any prefix / include_version, but that shape
             if got != want:
                 viol("after saving / copying, as_dict of the same dependency object gives other URLs than the statement's",
                      {"impl_output": got, "expected": want, "call": "as_dict(%r)" % kw,
